@@ -257,3 +257,17 @@ def main(tier):
     run.sample(traces[0]["steps"][0])
     run.sample(traces[-1]["steps"][0])
     return run.finish()
+
+
+def replay(path):
+    """The recorded instance is regenerated from the seed: the whole (short) check is re-run with the
+    seed stored in the replay file name and the finding is looked up again."""
+    import os
+    import re
+    with open(path) as f:
+        doc = json.load(f)
+    m = re.search(r"-(\d+)-\d+\.json$", os.path.basename(path))
+    if m:
+        os.environ["VERIF_SEED"] = m.group(1)
+    print(f"re-running the check for the finding: {doc.get('what', '')[:200]}")
+    return main("quick")
